@@ -197,8 +197,14 @@ StringDictionaryRPHTFC::StringDictionaryRPHTFC(IteratorDictString *it,
 
     for (bucket = 1; bucket <= buckets; bucket++) {
       // Checking the available space in textStrings and
-      // realloc if required
-      while ((bytesStrings + (bucketsize * 1000)) > reservedStrings)
+      // realloc if required: the bucket takes its encoded header (at most the
+      // 4 * maxlength bytes of tmp) and bitsrp bits for each symbol of its
+      // internal strings (plus the byte cleared ahead)
+      size_t required =
+          4 * (size_t)maxlength +
+          ((beginnings[bucket] - beginnings[bucket - 1]) * (size_t)bitsrp) / 8 +
+          2;
+      while ((bytesStrings + required) > reservedStrings)
         reservedStrings = Reallocate(&textStrings, reservedStrings);
 
       bytes = 0;
